@@ -27,9 +27,14 @@ def frame_obligations(res, prefixes=None):
         defaults = [d for d in defaults if hit(d.where)]
     failed = []
     n = 0
+    written = {s.obj for s in sites if s.kind == 'write'}
     for q, desc in sorted(objs.items()):
         n += 1
         if q not in kit_f.OBJECTS and q not in kit_f.CONSTANT:
+            if desc.startswith('module-level') and 'global' not in desc and q not in written:
+                # a list/dict/set bound at module level that no site in the package writes: a constant table (a write site added later
+                # makes this obligation fail); caches, function attributes and `global` rebinding are state by nature and stay uncovered
+                continue
             failed.append(('object', 'module-level mutable state %s (%s) is not covered by the frame contract' % (q, desc), q))
     for s in sites:
         n += 1
